@@ -105,8 +105,11 @@ def gen_cases(rng, tier):
     for k in range(n):
         options = cfgprop.gen_table(rng)
         store, defaults = cfgprop.gen_store(rng, options)
+        busy = (k % 6 == 5)     # a sixth of the cases: announcements may also name a list with an unsaved in-place edit (outside H: impl vs model)
         c = cfgprop.gen_ops(rng, store, defaults, n_ops=rng.choice([6, 12, 25]), conf_events=True, aliasing=False, options=options,
-                            case_mix=True)
+                            case_mix=True, busy_events=busy)
+        if busy:
+            c['in_h'] = False
         tab = cfg.Table(c)
         c['reads_as'] = {n: cfgprop.mixed_case(rng, n) for n in tab.names}
         c['probe_first'] = (k % 4 == 3)      # built without a connection, looked at, then attached (the launch() path)
